@@ -257,7 +257,8 @@ fn main() {
 
     // 5. sorting / min / max of random lists (duplicates and signed zeros likely)
     for _ in 0..(if a.thorough { 5_000 } else { 600 }) {
-        let n = r.below(9);
+        // mostly short lists; some long enough for std's merge / large-slice paths
+        let n = match r.below(8) { 0 => 21 + r.below(100), 1 => 9 + r.below(24), _ => r.below(9) };
         let items: Vec<String> = (0..n).map(|_| {
             if r.chance(1, 2) { xb(*r.pick(&core)) } else { xb(rand_legal(&mut r)) }
         }).collect();
